@@ -29,6 +29,25 @@ let rec parse_ve (toks : string list) : vexpr * string list =
   | "N" :: t -> let (e, r) = parse_ve t in (VNeg e, r)
   | _ -> failwith "VCls"
 
+(* the IR of a class (^E$): Cat 3 Anchor .. X Anchor .., X built from Empty / Brk / SS / Alt *)
+let rec parse_cnode (toks : string list) : node * string list =
+  match toks with
+  | "Empty" :: t -> (NEmpty, t)
+  | "Goal" :: t -> (NGoal, t)
+  | "Anchor" :: s :: m :: t -> (NAnchor (bos s, bos m), t)
+  | "Brk" :: inv :: k :: t -> let (a, r) = take (2 * ios k) t in (NBracket { br_invert = bos inv; br_ivs = pairs a }, r)
+  | "SS" :: ic :: k :: t ->
+    let rec go k t = if k = 0 then ([], t) else
+      (match t with
+       | len :: t' -> let (a, r) = take (ios len) t' in let (xs, r2) = go (k - 1) r in (List.map nn a :: xs, r2)
+       | [] -> failwith "SS") in
+    let (alts, r) = go (ios k) t in (NStringSet (alts, bos ic), r)
+  | "Alt" :: t -> let (a, r) = parse_cnode t in let (b, r2) = parse_cnode r in (NAlt (a, b), r2)
+  | "Cat" :: k :: t ->
+    let rec go k t = if k = 0 then ([], t) else let (x, r) = parse_cnode t in let (xs, r2) = go (k - 1) r in (x :: xs, r2) in
+    let (l, r) = go (ios k) t in (NCat l, r)
+  | _ -> failwith ("parse_cnode: " ^ String.concat " " (match toks with a :: b :: _ -> [a; b] | l -> l))
+
 let rec parse (toks : string list) : regex * string list =
   match toks with
   | "E" :: t -> (REmpty, t)
@@ -76,12 +95,23 @@ let run () =
   let cases = ref 0 and runs = ref 0 and pviol = ref 0 and nontrivial = ref 0 and fuelout = ref 0 and rej = ref 0 in
   let id = ref "" and pat = ref "" and flags = ref "" and ngroups = ref 0 and unicode = ref false in
   let re : regex option ref = ref None in
+  let jn = ref 0 and mism = ref 0 in
   let fuel = nat_of_int_big 600 in
   (try while true do
     let line = input_line stdin in
     match split line with
     | "P" :: i :: p :: f :: ng :: u :: _ -> incr cases; id := i; pat := p; flags := f; ngroups := ios ng; unicode := bos u; re := None
     | "A" :: toks -> re := Some (fst (parse toks))
+    | "J" :: toks ->
+      (* S1 (class sets): the IR of the class against the model of the parser's class set evaluation *)
+      (match !re, fst (parse_cnode toks) with
+       | Some (RSeq (_, RSeq (RVClass (e, ic), _))), NCat [NCat [_; x; _]; NGoal] ->
+         incr jn;
+         let m = class_node ic e in
+         if m <> x then begin
+           incr mism;
+           Printf.printf "MISMATCH stage=S1-classset case=%s pat=%s flags=%s detail=model-of-class-set-evaluation-differs\n" !id !pat !flags end
+       | _ -> ())
     | "REJ" :: i :: p :: f :: _ ->
       incr rej;
       Printf.printf "PROPVIOL prop=C08 case=%s pat=%s flags=%s hay=- start=0 detail=valid-pattern-rejected\n" i p f
@@ -127,4 +157,4 @@ let run () =
     | [] -> ()
     | _ -> failwith ("bad line: " ^ line)
   done with End_of_file -> ());
-  Printf.printf "SUMMARY cases=%d runs=%d mismatches=0 nontrivial=%d propviol=%d inconclusive=%d rejected=%d\n" !cases !runs !nontrivial !pviol !fuelout !rej
+  Printf.printf "SUMMARY cases=%d runs=%d mismatches=%d nontrivial=%d propviol=%d inconclusive=%d rejected=%d classset_irs=%d\n" !cases !runs !mism !nontrivial !pviol !fuelout !rej !jn
